@@ -38,7 +38,7 @@ PROPS = {
     "C02": dict(streams=[ALGO, HIST], translators=["formulas"], oracles=[dict(name="criterion", profiles=["debug"])],
                 assumptions=["whole-run theorems are about primitive_with in exact rational arithmetic (single/complete: any strict weak order); the float tolerance and the three fast algorithms are measured by correspondence and oracle"]),
     "C03": dict(streams=[ALGO, HIST, COMP], oracles=[dict(name="greedy", profiles=["debug"])],
-                assumptions=["theorem covers the primitive algorithm on the working matrix; order laws of `<` (transitive, irreflexive) are hypotheses that IEEE comparison satisfies"]),
+                assumptions=["theorems cover the primitive algorithm (working matrix: any carrier; closed-form criterion: exact arithmetic); order laws of `<` (transitive, irreflexive) are hypotheses that IEEE comparison satisfies"]),
     "C04": dict(streams=[ALGO, HIST], oracles=[dict(name="single_exact", profiles=["debug"])],
                 assumptions=["threshold-component and MST-weight characterisations are checked by the oracle, not proved"]),
     "C06": dict(streams=[ALGO], translators=["tables"], oracles=[dict(name="agree", profiles=["debug"])],
